@@ -89,6 +89,14 @@ def check(run):
                 for qi in range(nq):
                     aq = world.rand_query(rng, rng.randrange(0, 3), ops=NOFUZZY) if rng.random() < 0.7 \
                         else range_compound(rng)
+                    if qi % 6 == 5:
+                        aq = world.rand_span_query(rng, rng.randrange(1, 3))      # positional (span) queries
+                    elif qi % 6 == 4:
+                        # compounds that carry attributes besides their clauses
+                        f = rng.choice(world.TEXT_FIELDS)
+                        aq = {"op": "sequence", "kids": [{"op": "term", "f": f, "t": world.rand_term(rng), "b4": 4}
+                                                         for _ in range(rng.randrange(2, 4))],
+                              "slop": rng.choice([2, 3, 4]), "ordered": rng.random() < 0.5}
                     aq2 = world.rand_query(rng, rng.randrange(0, 2), ops=NOFUZZY)
                     q, q2 = world.to_query(aq), world.to_query(aq2)
                     groups = {}
